@@ -88,6 +88,29 @@ CHECKS = {
          "DESIGN.md section 4, C16"),
 }
 
+# additions made during the seeded-change rounds 4-8 (DESIGN.md section 11.3), appended to the level text
+EXTRA = {
+ "C01": "one rejected call at every position of the small documents; output also read with capacity 16; payload class x explicit width; boundary-length masters followed by globals / unknown ids",
+ "C02": "grown-buffer documents (payload above the initial capacity inside open known-size masters) x capacities",
+ "C03": "same-id nesting with the id buffered (hierarchy problems tolerated)",
+ "C04": "documents under size limits of 1 and 3 bytes",
+ "C05": "recovery / injected-error histories over every single mutation of every small document",
+ "C06": "the second derived specification W (placeholder paths, a global master); buffered sets on the unmutated documents; grown-buffer documents x capacities",
+ "C07": "specification W; one unknown-id element at every position (tolerated); every marker width; every tolerance switch; buffered sets",
+ "C08": "specification W (a master nested in itself); completeness of the buffered parse up to an incomplete buffered master",
+ "C09": "one rejected call at every position; payload class x explicit width; width rejections judged with the writer-produced content length",
+ "C10": "a second alphabet (explicit 1-byte size fields, raw tag through write(), Fulls ending their own master) with at most one rejected call per history",
+ "C11": "probes behind a tolerated unknown id, after a rejected End, after flush(), and behind a master that closed after the buffer grew",
+ "C12": "buffered sets for every (document, cut); grown-buffer documents",
+ "C13": "allow_errors called twice; oversize faults behind a recovery; global elements outside their depth range",
+ "C14": "one buffered master id; 16-40-byte junk across read boundaries; tags larger than the buffer behind the junk; a size limit equal to the largest declared size",
+ "C16": "every explicit size width; values read back through the real iterator under short reads",
+ "C17": "staged sources with stalls and recoveries; the limit lowered between two calls; limits 0 and 1; masters whose size is too small",
+ "C18": "8- and 5-byte ids at parent positions; reversed variant order; ambiguous name concatenations",
+ "C19": "a size-window sweep over 1-5 open masters; Fulls with Start/End children; Ends carrying options",
+ "C20": "model-independent constraints on the known finding (shape of the deviation; schedules on which the source stays ahead of the parser must match outright); the calls after the first error",
+}
+
 NOT_YET = "check under construction in this session (see DESIGN.md section 4 for its design); not claimed until it runs green"
 
 def main():
@@ -96,6 +119,8 @@ def main():
         if p not in CHECKS:
             continue
         tech, text, note, ref = CHECKS[p]
+        if p in EXTRA:
+            text = text.rstrip() + " Added later (DESIGN.md 11.3): " + EXTRA[p] + "."
         checks.append({
             "property_id": p,
             "quick_cmd": "./run %s quick" % p,
